@@ -34,7 +34,7 @@ RUNS = {"quick": 800, "thorough": 30000}
 BUDGET = {"quick": 80, "thorough": 1500}
 CHUNK = {"quick": 4, "thorough": 20}
 RUN_TIMEOUT_S = 600
-KINDS = ["copy", "replace", "unwrap", "group", "rmid", "assign_empty", "assign_map", "mc", "mc_empty", "compile", "compile_init", "metric", "trs", "evo", "hyb", "alt"]
+KINDS = ["copy", "edit_noise", "replace", "unwrap", "group", "rmid", "assign_empty", "assign_map", "mc", "mc_empty", "compile", "compile_init", "metric", "trs", "evo", "hyb", "alt"]
 RULE = (
     "session = pool of 1-2 seeded circuits (random programs as in C01 on <=5 qubits, or a TimeReversedSolver circuit) "
     "and 1-2 targets (graph / stabilizer / density-matrix QuantumState), then 4-14 calls over {copy, unwrap_nodes, "
@@ -94,7 +94,7 @@ def gen_case(run_seed, tier):
     return {"ne": ne, "np": np_, "programs": progs, "target": [tg[0], [list(e) for e in tg[1]]],
             "target_reps": [sz.choice(["g", "s", "dm", "s-", "s-"]) for _ in range(sz.randint(1, 2))],
             "with_trs_circuit": sz.random() < 0.4 and np_ >= 2, "history": hist, "lseed": sz.randrange(10**9),
-            "shuffle_nodes": sz.random() < 0.4}
+            "shuffle_nodes": sz.random() < 0.4, "share_wrapper_lists": sz.random() < 0.3}
 
 
 def simplify(case):
@@ -339,6 +339,9 @@ def run_case(case):
     tn, tedges = case["target"][0], [tuple(e) for e in case["target"][1]]
     circuits = []  # dicts: obj, origin, uses (list of kinds), noisy_derived (bool)
     targets = []
+    gq.SHARED_LISTS = {} if case.get("share_wrapper_lists") else None
+    if case.get("share_wrapper_lists"):
+        ctx.probe("wrappers_built_from_shared_gate_lists")
     with OwnedRNG(lib, outcomes=OutcomeScript([], fallback=random.Random(case["lseed"] + 1)), ctx=ctx):
         try:
             for prog in case["programs"]:
@@ -425,6 +428,25 @@ def run_case(case):
                         ctx.violate("P_copy_differs", step, f"copy of circuit #{ci} differs in {[str(x) for x in d][:4]}", {"call": "copy"})
                         ok = False
                     circuits.append({"obj": c2, "origin": f"copy({ci})", "uses": [], "noisy_derived": False, "noisy": C["noisy"]})
+                elif k == "edit_noise":
+                    # the caller attaches a noise object to ONE operation of ONE circuit in place (plain attribute
+                    # assignment): every other object of the pool - in particular the circuit this one was copied from
+                    # and its other copies - must compile as before
+                    nodes = sorted(n_ for n_ in C["obj"].dag.nodes if isinstance(n_, int) and gq.spec_of(C["obj"].dag.nodes[n_]["op"])[0] == "g1"
+                                   and type(C["obj"].dag.nodes[n_]["op"].noise).__name__ == "NoNoise")
+                    if not nodes or C["origin"] == "program" and not any(x["origin"].startswith("copy") for x in circuits):
+                        ctx.log(step, k, "skipped")
+                        continue
+                    node = nodes[a[2] % len(nodes)]
+                    op_ = C["obj"].dag.nodes[node]["op"]
+                    op_.noise = nm.DepolarizingNoise(0.2)
+                    C["noisy"] = True
+                    ctx.fault("object_reuse")
+                    ctx.probe("operation_noise_edited_in_place")
+                    ok = ok and check_unchanged(step, what, before, exempt_circuit=ci)
+                    C["uses"].append(k)
+                    ctx.log(step, k, ci, node)
+                    continue
                 elif k == "replace":
                     # the circuit is edited on purpose through the public replace_op: an Identity placeholder (or another
                     # one-qubit gate) is exchanged for a gate of another class on the same register
